@@ -123,7 +123,24 @@ def run(ctx: Check) -> int:
     ctx.exhaustive = False
     ctx.assumptions = ["urllib.parse.quote is modelled (percent-encoding of UTF-8 bytes, safe set A-Za-z0-9_.-~) and "
                        "validated differentially", "names are valid unicode strings (no lone surrogates)"]
-    return ctx.finish()
+    def search(c: Check) -> None:
+        # exhaustive search for a collision over words built from the separator, '%' and the characters of its
+        # escape: the places where an encoding change can go wrong
+        sigma = ["_", "%", "5", "F", "2", "a"]
+        words = [""]
+        for k in range(1, 4):
+            words += ["".join(t) for t in itertools.product(sigma, repeat=k)]
+        seen2: dict[str, list[str]] = {}
+        for cn in words:
+            for un in words[:43]:
+                i = agg.create_engine_id(_msg(cn, un))
+                q = seen2.setdefault(i, [cn, un])
+                if q != [cn, un]:
+                    c.fail(Failure("engine-id-collision", {"pair1": q, "pair2": [cn, un]},
+                                   f"{q!r} and {[cn, un]!r} both get engine id {i!r}"))
+                    return
+
+    return ctx.finish(search=search)
 
 
 def replay(obj) -> int:
